@@ -65,6 +65,20 @@ func genC09(seed uint64, tier string) *Plan {
 	return p
 }
 
+// otherSize returns a file-size limit different from cur: a neighbour, a
+// multiple, a fraction, or the documented default (1 GiB), which the harness
+// configures by leaving the option out.
+func otherSize(cur uint32, salt uint64) uint32 {
+	c := []uint32{cur/2 + 7, cur + 1, cur - 1, cur * 2, 1 << 30, 1 << 30, 16, cur + 4096}
+	for i := 0; i < len(c); i++ {
+		v := c[(int(salt%8)+i)%len(c)]
+		if v != cur && v >= 8 && v <= 1<<30 { // larger limits are illegal configurations, not mismatches
+			return v
+		}
+	}
+	return cur/2 + 7
+}
+
 func runRebits(p *Plan, tape *simrt.Tape, opt RunOpt) *RunOut {
 	out := newOut()
 	fs := newStoreFS()
@@ -130,7 +144,7 @@ func runRebits(p *Plan, tape *simrt.Tape, opt RunOpt) *RunOut {
 		if mode == 0 {
 			// file-size mismatches are refused with the specific error and change nothing we can see
 			bad := d.Cfg
-			bad.IndexFile = d.Cfg.IndexFile/2 + 7
+			bad.IndexFile = otherSize(d.Cfg.IndexFile, p.Seed)
 			err := d.OpenWith(bad)
 			var ie types.ErrIndexWrongFileSize
 			if err == nil || !errors.As(err, &ie) {
@@ -139,7 +153,7 @@ func runRebits(p *Plan, tape *simrt.Tape, opt RunOpt) *RunOut {
 			}
 			if d.Cfg.Primary != "CID" {
 				bad = d.Cfg
-				bad.PrimaryFile = d.Cfg.PrimaryFile/2 + 7
+				bad.PrimaryFile = otherSize(d.Cfg.PrimaryFile, p.Seed>>8)
 				err = d.OpenWith(bad)
 				var pe types.ErrPrimaryWrongFileSize
 				if err == nil || !errors.As(err, &pe) {
@@ -151,7 +165,7 @@ func runRebits(p *Plan, tape *simrt.Tape, opt RunOpt) *RunOut {
 			// the file-size error (the bit-size change must not mask it)
 			bad = d.Cfg
 			bad.Bits = b2
-			bad.IndexFile = d.Cfg.IndexFile/2 + 7
+			bad.IndexFile = otherSize(d.Cfg.IndexFile, p.Seed>>16)
 			err = d.OpenWith(bad)
 			var ie2 types.ErrIndexWrongFileSize
 			if err == nil || !errors.As(err, &ie2) {
